@@ -1068,6 +1068,24 @@ func (m *Model) methodScalar(a *Node, item any, next emitFn) *merr {
 			}
 			return next(r.Num().Int64())
 		}
+		if jn, ok := item.(json.Number); ok {
+			// a json.Number is converted exactly (its text is a decimal number), not through the nearest double
+			f, ferr := jn.Float64()
+			if ferr != nil || math.Abs(f) > 1e19 {
+				return suppErr("out of range")
+			}
+			r := new(big.Rat)
+			if math.Abs(f) >= 0.25 {
+				if _, ok := r.SetString(string(jn)); !ok {
+					return suppErr("not a number")
+				}
+			}
+			r = roundHalfAway(r)
+			if r.Cmp(lo) < 0 || r.Cmp(hi) > 0 {
+				return suppErr("out of range")
+			}
+			return next(r.Num().Int64())
+		}
 		x, err := numOf(false)
 		if err != nil {
 			return err
